@@ -558,6 +558,21 @@ async def D16d():
     return got == [(b"c", b"42"), (b"d", None)], got
 
 
+# --------------------------------------------------------------------------- C03
+async def D3e():
+    """an ERR whose message cannot be encoded in character_set_results must still reach the client (one ERR, connection alive)"""
+    s = RecSession()
+    srv = mkserver([s])
+    a = Peer(srv)
+    await a.login()
+    r0 = await a.cmd(com_query(b"SET character_set_results = 'latin1'"))
+    r1 = await a.cmd(com_query("SET @@\u4e2d\u6587 = 1".encode()))
+    r2 = await a.cmd(b"\x0e")
+    ok = (len(r1) == 1 and r1[0][1][:1] == b"\xff" and r1[0][0] == 1 and len(r2) == 1 and r2[0][1][:1] == b"\x00")
+    await a.finish()
+    return ok, (r0, r1, r2)
+
+
 # --------------------------------------------------------------------------- C12
 async def D12b():
     """a client that reads slowly (real socket pair, small kernel buffers): the transport keeps a view of what the
@@ -615,7 +630,7 @@ ALL = {
     "D5c": ("C05", D5c), "D6": ("C06", D6), "D7": ("C07", D7), "D9a": ("C09", D9a), "D9b": ("C09", D9b),
     "D9c": ("C09", D9c), "D9d": ("C09", D9d), "D10a": ("C03", D10a), "D10b": ("C03", D10b),
     "D10c": ("C03", D10c), "D11": ("C11", D11), "D13": ("C13", D13), "D13b": ("C13", D13b), "D13c": ("C13", D13c), "D14": ("C14", D14), "D15": ("C15", D15),
-    "D12b": ("C12", D12b), "D16": ("C16", D16), "D16b": ("C16", D16b), "D16d": ("C16", D16d), "D18": ("C18", D18),
+    "D3e": ("C03", D3e), "D12b": ("C12", D12b), "D16": ("C16", D16), "D16b": ("C16", D16b), "D16d": ("C16", D16d), "D18": ("C18", D18),
 }
 
 
